@@ -148,9 +148,10 @@ const F32_SPECIAL: [u32; 12] = [
 fn special(t: &str, r: &mut Rng) -> u64 {
 	match t {
 		"f32" => *r.pick(&F32_SPECIAL) as u64,
-		"u8" | "i8" => *r.pick(&[0u64, 1, 0x7F, 0x80, 0xFE, 0xFF, 14, 3, 4]),
-		"u16" | "i16" => *r.pick(&[0u64, 1, 0x7FFF, 0x8000, 0xFFFE, 0xFFFF, 0x0100, 0x00FF]),
-		_ => *r.pick(&[0u64, 1, 0x7FFF_FFFF, 0x8000_0000, 0xFFFF_FFFE, 0xFFFF_FFFF, 0x0100_0000, 0x0000_00FF]),
+		// (event command bytes 0x10, 0x35..0x3D are planted too: data that looks like framing)
+		"u8" | "i8" => *r.pick(&[0u64, 1, 0x7F, 0x80, 0xFE, 0xFF, 14, 3, 4, 0x39, 0x36, 0x10, 0x55, 0x7d]),
+		"u16" | "i16" => *r.pick(&[0u64, 1, 0x7FFF, 0x8000, 0xFFFE, 0xFFFF, 0x0100, 0x00FF, 0x3939, 0x3900, 0x0039]),
+		_ => *r.pick(&[0u64, 1, 0x7FFF_FFFF, 0x8000_0000, 0xFFFF_FFFE, 0xFFFF_FFFF, 0x0100_0000, 0x0000_00FF, 0x3939_3939, 0x3900_0039]),
 	}
 }
 
@@ -234,6 +235,8 @@ fn put_sfield(buf: &mut [u8], f: &SField, r: &mut Rng) {
 			let v = utf8z_field(f.w, r);
 			buf[i..i + f.w].copy_from_slice(&v);
 		}
+		// flags: false about half of the time (a random byte would almost always read as true)
+		"bool" => buf[i] = *r.pick(&[0u8, 0, 0, 1, 1, 2, 0xFF]),
 		"endmethod" => buf[i] = *r.pick(&[0u8, 1, 2, 3, 7]),
 		"lras" => buf[i] = *r.pick(&[0u8, 1, 2, 3, 255]),
 		"placement" => buf[i] = *r.pick(&[0xFFu8, 0, 1, 2, 3]),
